@@ -654,6 +654,13 @@ func ruleFragmentClassified(c *Ctx, rule string) {
 						}
 					}
 				}
+				if bo, ok := cond.(*ssa.BinOp); ok {
+					if subj, ok := slashAtZero(bo); ok { // frag[0] == '/' written in place
+						n++
+						c.R.Check(sharesSource(subj, lk.Index), rule, fmt.Sprintf("%s:pointer-or-anchor#%d", core.FuncName(fn), n), c.pos(bo), "the pointer-or-anchor decision is made on the string that is looked up", "whether the fragment is a JSON Pointer is decided on another string than the one looked up in the anchor table (its escaped form, say): a pointer whose leading slash is written %2F is taken for an anchor name, so the $ref fails, or reaches whatever schema happens to carry that text as $anchor")
+						continue
+					}
+				}
 				call, ok := cond.(*ssa.Call)
 				if !ok {
 					continue
@@ -665,6 +672,13 @@ func ruleFragmentClassified(c *Ctx, rule string) {
 						if hc, ok := j.(*ssa.Call); ok && core.CalleeKey(&hc.Call) == "strings.HasPrefix" && len(hc.Call.Args) == 2 && hc.Call.Args[0] == ssa.Value(h.Params[0]) {
 							if s, isStr := constString(hc.Call.Args[1]); isStr && s == "/" {
 								inner = true
+							}
+						}
+					})
+					core.EachInstr(h, func(j ssa.Instruction) {
+						if bo, ok := j.(*ssa.BinOp); ok {
+							if subj, ok := slashAtZero(bo); ok && subj == ssa.Value(h.Params[0]) {
+								inner = true // frag[0] == '/'
 							}
 						}
 					})
@@ -883,4 +897,36 @@ func rulePropertyValueAsStored(c *Ctx, rule string) {
 		}
 	}
 	c.R.Floor(rule, "property lookup helpers", n, 1)
+}
+
+// slashAtZero: bo compares the first byte of a string with '/'; the string is returned.
+func slashAtZero(bo *ssa.BinOp) (ssa.Value, bool) {
+	if bo.Op != token.EQL && bo.Op != token.NEQ {
+		return nil, false
+	}
+	for _, pair := range [][2]ssa.Value{{bo.X, bo.Y}, {bo.Y, bo.X}} {
+		var str, index ssa.Value
+		switch lk := pair[0].(type) { // string indexing is an Index in this x/tools, a Lookup in older ones
+		case *ssa.Lookup:
+			str, index = lk.X, lk.Index
+		case *ssa.Index:
+			str, index = lk.X, lk.Index
+		default:
+			continue
+		}
+		if !tString(str.Type()) {
+			continue
+		}
+		if ix, ok := index.(*ssa.Const); !ok {
+			continue
+		} else if iv, ok := constInt(ix); !ok || iv != 0 {
+			continue
+		}
+		if k, ok := pair[1].(*ssa.Const); ok {
+			if kv, ok := constInt(k); ok && kv == '/' {
+				return str, true
+			}
+		}
+	}
+	return nil, false
 }
